@@ -172,7 +172,7 @@ def main(argv):
             f, s, _, _, _, _ = parse(run(v, c04, replay_cmd(r), seed, 'corpus replay'))
             for x in f: x['desc'] = 'corpus/C04/known/%s' % os.path.basename(kf)
             fails += f
-        budget, nexec, ncorr = (1200, 20, 600) if tier == 'quick' else (40000, 300, 30000)
+        budget, nexec, ncorr = (1300, 20, 600) if tier == 'quick' else (40000, 300, 30000)
         sc = float(os.environ.get('VERIF_BUDGET_SCALE', '1'))   # for trying out a tier quickly; 1 in normal use
         budget, nexec, ncorr = [max(10, int(x * sc)) for x in (budget, nexec, ncorr)]
         f, s, d, he, _, _ = parse(run(v, c04, ['fuzz', mf, budget, tier, nexec], seed, 'fuzz'))
@@ -183,7 +183,11 @@ def main(argv):
         v.obligation('fork-server outcome = outcome of the exec\'d truth-cli binary on the confirmation sample (%s)' % stats.get('cli-exec', ''), not diffs, json.dumps(diffs)[:800])
 
     reported = set()
+    # a recorded finding may be limited to the kinds of input it was recorded for ("input_kinds"): the same panic site
+    # reached by another kind of input gets the kind appended to its class and is therefore reported, not suppressed
+    limited = {e['class']: e['input_kinds'] for e in v.known_findings if e.get('status') == 'open' and e.get('input_kinds')}
     for x in fails:
+        if x['class'] in limited and x['kind'] not in limited[x['class']]: x['class'] = '%s@%s' % (x['class'], x['kind'])
         if x['class'] in reported: continue
         reported.add(x['class'])
         try: text = binascii.unhexlify(x['hex']).decode('utf-8', 'replace')
